@@ -53,6 +53,11 @@ def discover_rep(m):
     for e in ps[0].events:
         if e.kind == "store" and fld(e.ptr, fn, m):
             vals[fld(e.ptr, fn, m)] = strip_casts(e.val)
+    # a member that nothing but itself (and its accessor) ever depends on is a statistic, not part of the representation
+    from .purity import write_only_member
+    stats = [k for k, v in vals.items() if v[0] == "c" and write_only_member(m, ("rf_pack_t", "rf_pack"), k)]
+    for k in stats:
+        del vals[k]
     buf = [k for k, v in vals.items() if v == ("arg", 1)]
     zero = [k for k, v in vals.items() if v[0] == "c" and v[2] == 0]
     size = [k for k, v in vals.items() if v == ("arg", 2)]
